@@ -110,6 +110,13 @@ def _perf_cases(tier):
     cases.append(("meta_and_signatures", [dict(notes=[(60, 0.0, 1.0, 64, 0)], controls=[], programs=[(0.0, 1, 0), (0.5, 40, 0)],
                                                key_signatures=[dict(time=0.0, fifths=-3, mode="minor"), dict(time=1.0, fifths=2, mode="major")],
                                                time_signatures=[dict(time=0.0, beats=6, beat_type=8)], meta_other=[dict(time=0.25, type="marker", text="A")])]))
+    # every way of naming a mode that the library documents (strings, None = major, and the integer codes 1 = major, -1 = minor)
+    cases.append(("key_signature_modes_by_name_and_by_code", [dict(notes=[(60, 0.0, 1.0, 64, 0)], controls=[], programs=[],
+                                                                   key_signatures=[dict(time=0.0, fifths=-1, mode=1), dict(time=0.5, fifths=-1, mode=-1), dict(time=1.0, fifths=3, mode=None),
+                                                                                   dict(time=1.5, fifths=0, mode="minor"), dict(time=2.0, fifths=-4, mode="major")])]))
+    # the pedal on a track of its own: a part that holds control changes and not a single note
+    cases.append(("a_part_with_controls_and_no_note", [dict(notes=[(60, 0.5, 1.0, 64, 0), (64, 1.0, 1.5, 70, 0)], controls=[], programs=[]),
+                                                        dict(notes=[], controls=[(64, 0.2, 127), (64, 0.9, 0), (67, 0.4, 50)], programs=[])]))
     if tier == "thorough":
         cases.append(("three_tracks", [dict(notes=[(60 + i, 0.1 * i, 0.1 * i + 0.3, 10 + i, i)], controls=[(64, 0.05 * i, i)], programs=[]) for i in range(3)]))
         cases.append(("short_notes", [dict(notes=[(60, 1.0, 1.0003, 64, 0), (61, 1.0, 1.002, 64, 0), (62, 2.0, 2.0, 64, 0)], controls=[], programs=[])]))
@@ -158,7 +165,9 @@ def bounded(b):
                     if (merge_save or merge_load) and kind != "performance":
                         continue
                     case = {"perf": name, "ppq": ppq, "mpq": mpq, "input": kind, "merge_save": merge_save, "merge_load": merge_load}
-                    pps = _build(parts)
+                    ok, pps = b.guard("roundtrip/performance_built_no_exception", case, lambda: _build(parts))
+                    if not ok:
+                        continue
                     perf = pf.Performance(pps) if kind != "part" else None
                     arg = perf if kind == "performance" else (pps[0] if kind == "part" else list(perf.performedparts))
                     buf = io.BytesIO()
@@ -289,7 +298,7 @@ def _compare(b, case, pps, back, ppq, mpq, merged):
     b.case("roundtrip/same_program_changes", okp, case, "programs %r, expected to contain %r" % (gp, wp))
     b.case("save/default_program_once_per_track_channel", all(r[0] == 0 for r in rest) and len(rest) == len(defaults), case,
            "default program changes %r for program-less (track, channel) pairs %r" % (rest, defaults))
-    wk = sorted((k.get("fifths"), "minor" if k.get("mode") in ("minor", -1) else "major") for pp in pps for k in pp.key_signatures)
+    wk = sorted((k.get("fifths"), "minor" if k.get("mode") in ("minor", -1) else "major") for pp in pps for k in pp.key_signatures)  # (documented: 1, "major", None = major)
     gk = sorted((k["fifths"], k["mode"]) for pp in back.performedparts for k in pp.key_signatures)
     wt = sorted((t["beats"], t["beat_type"]) for pp in pps for t in pp.time_signatures)
     gt = sorted((t["beats"], t["beat_type"]) for pp in back.performedparts for t in pp.time_signatures)
